@@ -282,7 +282,10 @@ func (p *Program) parseGhostType(s string, pk *packages.Package) (*Type, error) 
 			if cand.Name == m[2] {
 				byName = append(byName, cand)
 				if _, imported := pk.Imports[cand.PkgPath]; imported || cand.PkgPath == pk.PkgPath {
-					ip = cand
+					// several imported packages may share a package name (config, config): take one that declares the type
+					if ip == nil || (ip.Types.Scope().Lookup(m[3]) == nil && cand.Types.Scope().Lookup(m[3]) != nil) {
+						ip = cand
+					}
 				}
 			}
 		}
